@@ -40,6 +40,8 @@ def arg(x):
 def run_plen(case):
     if case["op"] == "auto":
         return run_auto(case)
+    if case["op"] == "autocreate":
+        return run_autocreate(case)
     sbx = new_sandbox("pl")
     try:
         x, via = case["x"], case["via"]
@@ -107,3 +109,80 @@ def run_auto(case):
     except Exception as ex:
         rec["status"] = "exc:" + type(ex).__name__
     return rec
+
+
+def _sparse(path, size):
+    os.makedirs(os.path.dirname(path), exist_ok=True)
+    with open(path, "wb") as fh:
+        fh.truncate(size)
+
+
+def run_autocreate(case):
+    """The automatic choice as a user meets it: create WITHOUT a piece length from a real payload of
+    the given total size (sparse files), in several layouts; judged in the same ascending chain as
+    the function-level records.  size = the total the created metafile itself declares."""
+    size = int(case["size"])
+    sbx = new_sandbox("pa")
+    rec = {"id": case["id"], "op": "auto", "clauses": case["clauses"], "size": bits(size), "status": "ok",
+           "result": [], "x": {"denotes": False, "plain": False, "sign": 1, "bits": [], "kind": "none"},
+           "via": "create:" + case["layout"], "created": False, "recorded": [], "metafile_written": False}
+    try:
+        lay = case["layout"]
+        root = os.path.join(sbx, "p", "auto")
+        small = min(size, 3000)
+        if lay == "single":
+            root = os.path.join(sbx, "p", "auto.bin")
+            _sparse(root, size)
+        elif lay == "dir":
+            _sparse(os.path.join(root, "a"), size - small)
+            _sparse(os.path.join(root, "d", "b"), small // 3)
+            _sparse(os.path.join(root, "d", "e", "c"), small - small // 3)
+        elif lay == "symdir":        # most of the payload sits behind a symbolic link to a directory
+            _sparse(os.path.join(root, "a"), small)
+            _sparse(os.path.join(sbx, "elsewhere", "big"), size - small)
+            os.symlink(os.path.join(sbx, "elsewhere"), os.path.join(root, "sub"))
+        elif lay == "symfile":       # ... behind a symbolic link to a file
+            _sparse(os.path.join(root, "a"), small)
+            _sparse(os.path.join(sbx, "elsewhere", "big"), size - small)
+            os.symlink(os.path.join(sbx, "elsewhere", "big"), os.path.join(root, "big"))
+        elif lay == "many":          # equal files
+            n = 7
+            for k in range(n):
+                _sparse(os.path.join(root, "f%d" % k), size // n + (1 if k < size % n else 0))
+        out = os.path.join(sbx, "m.torrent")
+        v = case.get("version", 1)
+        try:
+            if case.get("via") == "cli":
+                from torrentfile.cli import execute
+                execute(["create", root, "-o", out, "--prog", "0", "--meta-version", str(v)])
+            else:
+                from torrentfile.torrent import TorrentFile, TorrentAssembler
+                cls = TorrentFile if v == 1 else TorrentAssembler
+                cls(path=root, outfile=out, progress=0, meta_version=str(v)).write()
+            with open(out, "rb") as fh:
+                node, _, _ = bdecode_strict(fh.read())
+            info = node.get(b"info")
+            rec["result"] = bits(info.get(b"piece length").val)
+            m = alpha.alpha_meta(open(out, "rb").read(), None, want_tables=False)
+            declared = None
+            if info.get(b"files") is not None:
+                declared = sum(e.get(b"length").val for e in info.get(b"files").val if e.get(b"attr") is None)
+            elif info.get(b"length") is not None:
+                declared = info.get(b"length").val
+            else:
+                def walk(n):
+                    tot = 0
+                    for k, c in n.val:
+                        tot += c.get(b"length").val if k.val == b"" else walk(c)
+                    return tot
+                declared = walk(info.get(b"file tree"))
+            rec["size"] = bits(declared)
+            rec["declared_matches"] = declared == size
+            rec["created"] = rec["metafile_written"] = True
+        except SystemExit as ex:
+            rec["status"] = "exit:%s" % ex.code
+        except Exception as ex:
+            rec["status"] = "exc:" + type(ex).__name__
+        return rec
+    finally:
+        rm(sbx)
